@@ -22,6 +22,9 @@ DECODE = ["nothing", "header", "object_headers", "object_values"]
 FLUSH = {"k": "raw", "hex": "00" * 300, "tag": {"hostile": True}}
 
 
+RX_BUFS = [2048, 249, 292, 500, 1024]
+
+
 def enumerate_stimuli(wd):
     cfg = os.path.join(wd, "hostile.cfg")
     with open(cfg, "w") as f:
@@ -134,6 +137,9 @@ def run(tier, replay=None):
         cfg = concretize.harness_cfg(a["model"], a.get("retries", 1))
         cfg["error_mode"] = "discard" if i % 2 else "close"
         cfg["decode"] = DECODE[i % 4]
+        # "any legal buffer-size configuration": the outstation's receive buffer from the minimum up
+        # (the master's is fixed by its type, BufferSize<2048, 2048>)
+        cfg["rx_buf"] = RX_BUFS[(i // 4) % len(RX_BUFS)]
         steps = concretize.steps_of(a["hist"][:cut], a["model"])
         st = {"k": "raw", "hex": data.hex(), "tag": {"hostile": True}}
         ch = hostile.chunks_of(len(data), s["chunk"], rnd)
